@@ -54,6 +54,9 @@ func runC08(r *Run) {
 		r.checkSortKey(P, tr, fns)
 		// ... nor on the spelling of a number (1.0 / 1e0 / -0): every number goes through ParseFloat -> NumberToJSON
 		r.checkNumberRoute(P, fns)
+		// strings: a serializer that copies a byte it should have escaped maps two JSON values to one canonical form
+		r.checkEscapeTables(P)
+		r.checkEscapeControl(P, fns)
 	}
 	if f := r.fn(P, pkgHashing, "IsValidModelMultihash"); f != nil {
 		r.requireSucc(P+".alg.from.hash", "if this fails, a model is accepted against a multihash that is not its hash under the algorithm the multihash names", f, core.Ctx{}, "",
